@@ -230,7 +230,7 @@ var c15RInv = new(big.Int).ModInverse(gen.Two256, gen.P)
 // point must not depend on the representative: all four conversions agree with the reference, and the encoding decodes back.
 func TestVerif_C15_Conversions(t *testing.T) {
 	rec := stats.Get("C15", "conversions")
-	rec.Rule("rapid: point [a]G (a from {0,1,2,3,n-1,n-2,small,uniform} or a tiny-x special point) in the representative (l*x : l*y : l) with l drawn limb by limb (gen.Limbs: sparse limbs 0/1/2/2^32-1/2^32/2^63/2^64-1 or mixed with uniform limbs), taken as the canonical value of Z or as its Montgomery form (l*2^-256); also the result of one more Double/Add on it. Oracle: Bytes(), Bytes_Unsafe() equal the reference encoding; GetAffineX(), GetAffineX_Unsafe() equal the reference x; IsInfinity; SetBytes(Bytes()) round-trips. Non-trivial: l != 1; distinct by (a, l, form, op).")
+	rec.Rule("rapid: point [a]G (a from {0,1,2,3,n-1,n-2,small,uniform} or a tiny-x special point) in the representative (l*x : l*y : l) with l drawn limb by limb (gen.Limbs: sparse limbs 0/1/2/2^32-1/2^32/2^63/2^64-1 or mixed with uniform limbs), taken as the canonical value of Z or as its Montgomery form (l*2^-256); (or so that X or Y takes that value); also the result of one more Double/Add/Negate on it. Oracle: Bytes(), Bytes_Unsafe() equal the reference encoding; GetAffineX(), GetAffineX_Unsafe() equal the reference x (0 for infinity) and are then modified in place by the caller; IsInfinity; SetBytes(Bytes()) round-trips. Non-trivial: l != 1; distinct by (a, l, form, op).")
 	t.Cleanup(stats.FlushAll)
 	rapid.Check(t, func(t *rapid.T) {
 		W, wcls := c15Operand(t, "w")
@@ -243,11 +243,27 @@ func TestVerif_C15_Conversions(t *testing.T) {
 		if l.Sign() == 0 {
 			l.SetInt64(1)
 		}
+		// which coordinate of the representative takes the structured value: Z (l itself), or X or Y (l = value / x or / y), so that
+		// the word-structured limbs sit in the coordinate the next operation works on (negation and the first products use X, Y)
+		force := gen.Pick(t, "force", "Z", "Z", "X", "Y", "Y")
+		if !W.Inf {
+			c := W.X
+			if force == "Y" {
+				c = W.Y
+			}
+			if force != "Z" && c.Sign() != 0 {
+				l.Mul(l, new(big.Int).ModInverse(c, gen.P)).Mod(l, gen.P)
+			}
+		}
+		lcls += "/" + force
 		pt := c14FromRef(t, W)
 		c15ScaleBy(pt, l)
 		want := W
-		op := gen.Pick(t, "then", "none", "none", "none", "double", "addG")
+		op := gen.Pick(t, "then", "none", "none", "none", "double", "addG", "negate", "negate")
 		switch op {
+		case "negate":
+			pt.Negate(pt)
+			want = sm2ref.Neg(W)
 		case "double":
 			pt.Double(pt)
 			want = sm2ref.Add(W, W)
@@ -270,14 +286,22 @@ func TestVerif_C15_Conversions(t *testing.T) {
 		if (pt.IsInfinity() == 1) != want.Inf {
 			vt.Fail(t, rec, "C15:conv:isinfinity", "IsInfinity wrong\n%s", detail)
 		}
-		if !want.Inf {
-			if x := pt.GetAffineX(); x.Cmp(want.X) != 0 {
-				vt.Fail(t, rec, "C15:conv:affinex", "GetAffineX() wrong\n%s\n got %x", detail, x)
-			}
-			if x := pt.GetAffineX_Unsafe(); x.Cmp(want.X) != 0 {
-				vt.Fail(t, rec, "C15:conv:affinex-unsafe", "GetAffineX_Unsafe() wrong\n%s\n got %x", detail, x)
-			}
+		// (documented: the point at infinity converts to 0.) Every value handed out belongs to the caller, who goes on computing
+		// with it IN PLACE — as VerifyHashed itself does with the x it gets; later conversions must not notice.
+		wantX := want.X
+		if want.Inf {
+			wantX = new(big.Int)
 		}
+		x1 := pt.GetAffineX()
+		if x1.Cmp(wantX) != 0 {
+			vt.Fail(t, rec, "C15:conv:affinex", "GetAffineX() wrong\n%s\n got %x", detail, x1)
+		}
+		x2 := pt.GetAffineX_Unsafe()
+		if x2.Cmp(wantX) != 0 {
+			vt.Fail(t, rec, "C15:conv:affinex-unsafe", "GetAffineX_Unsafe() wrong\n%s\n got %x", detail, x2)
+		}
+		x1.Add(x1, big.NewInt(0x1234567)).Lsh(x1, 70)
+		x2.Sub(x2, big.NewInt(77)).Mul(x2, x2)
 		back, err := NewSM2Generator().SetBytes(pt.Bytes_Unsafe())
 		if err != nil || !bytes.Equal(back.Bytes(), enc) {
 			vt.Fail(t, rec, "C15:conv:roundtrip", "SetBytes(Bytes_Unsafe(P)) failed: %v\n%s", err, detail)
